@@ -196,6 +196,7 @@ class LanDevice:
             if getattr(self, "nonce_hook", None):
                 nonce = self.nonce_hook(nonce)          # the appliance's random value is its own choice: tests steer it to reach rare session keys
             if self.rotate_on_handshake or s["key"] is None:
+                s["prevkey"], s["prevkeyid"] = s["key"], s["keyid"]
                 self.nkeys += 1
                 s["key"] = rc.xor(nonce, self.key)
                 s["keyid"] = self.nkeys
